@@ -87,7 +87,8 @@ class C07(Check):
         mirror = st.fixed_dictionaries(dict(kind=st.just('mirror'), spec=GL.lens_spec(SYM), rays=rb, hx=hx,
                                             which=st.sampled_from(['x', 'y', 'xy']), wl=st.integers(0, 3)))
         tilt = st.fixed_dictionaries(dict(kind=st.just('tilt'), spec=GL.lens_spec(FREE, min_surfs=2), rays=rb, s=st.integers(0, 99),
-                                          ax=f(-0.3, 0.3), ay=st.one_of(st.just(0.0), f(-0.3, 0.3)), wl=st.integers(0, 3)))
+                                          ax=st.one_of(st.just(0.0), f(-0.3, 0.3)), ay=st.one_of(st.just(0.0), f(-0.3, 0.3)),
+                                          wl=st.integers(0, 3)))
         dummy = st.fixed_dictionaries(dict(kind=st.just('dummy'), spec=GL.lens_spec(FREE, min_surfs=1), rays=rb, s=st.integers(0, 99),
                                            frac=f(0.25, 0.75), wl=st.integers(0, 3)))
         wave = st.fixed_dictionaries(dict(kind=st.just('wavelength'), spec=GL.lens_spec(IDEAL), rays=rb, w1=f(0.4, 0.9),
